@@ -67,16 +67,23 @@ Inductive nerr :=
 | ESys (e : nerr)           (* *os.SyscallError{Err: e} *)
 | EUrl (e : nerr)           (* *url.Error{Err: e} *)
 | EWrap (e : nerr)          (* pkg/errors wrapper (errors.Cause unwraps) *)
+| EUnder (e : nerr)         (* a value with an Underlying() error method (stackerr.Error and the like) *)
 | EErrno (n : N)            (* syscall.Errno *)
 | EOther.                   (* anything else *)
 
 Definition proto_code_error : N := 999.
 
-Fixpoint strip_wrap (e : nerr) : nerr :=
-  match e with EWrap e' => strip_wrap e' | _ => e end.
+(* getErrno first follows Underlying() as long as the value has one, then errors.Cause follows
+   Cause() as long as the value has one - in this order, each at the top of the value only *)
+Fixpoint strip_under (e : nerr) : nerr :=
+  match e with EUnder e' => strip_under e' | _ => e end.
+Fixpoint strip_cause (e : nerr) : nerr :=
+  match e with EWrap e' => strip_cause e' | _ => e end.
+Definition strip_wrap (e : nerr) : nerr := strip_cause (strip_under e).
 
 (* After errors.Cause: loop over OpError/SyscallError/url.Error; Errno n -> n; else 999.
-   A pkg/errors wrapper below a net wrapper is not unwrapped again (default branch). *)
+   A pkg/errors wrapper or an Underlying() value below a net wrapper, and an Underlying()
+   value below a pkg/errors wrapper, are not unwrapped again (default branch). *)
 Fixpoint errno_loop (e : nerr) : N :=
   match e with
   | EOp e' | ESys e' | EUrl e' => errno_loop e'
